@@ -27,44 +27,25 @@ Section DescEq.
   Qed.
 End DescEq.
 
-Theorem desc_eq_fixed_structural a b : desc_eq eq_fixed a b = true <-> a = b.
-Proof. apply desc_eq_structural. exact eq_fixed_structural. Qed.
+Theorem desc_eq_iter_structural a b : desc_eq eq_iter a b = true <-> a = b.
+Proof. apply desc_eq_structural. exact eq_structural. Qed.
 
 Local Open Scope N_scope.
 
-(* as coded, descriptors inherit the defect: wsh(thresh(1,..)) == wsh(thresh(2,..)), also inside a tap tree *)
-Theorem desc_eq_refuted :
-  exists a b a' b', desc_eq eq_iter a b = true /\ a <> b /\ desc_eq eq_iter a' b' = true /\ a' <> b'.
-Proof.
-  exists (DWsh (MThresh 1 [w_pk 0; w_spk 1])), (DWsh (MThresh 2 [w_pk 0; w_spk 1])),
-         (DTr 0 [(1, w_pk 1); (1, MThresh 1 [w_pk 2; w_spk 3])]), (DTr 0 [(1, w_pk 1); (1, MThresh 1 [w_pk 2; w_spk 3; w_spk 4])]).
-  repeat split; try (vm_compute; reflexivity); discriminate.
-Qed.
-
-Theorem desc_cmp_refuted :
-  exists a b c d,
-    desc_cmp cmp_iter N.compare N.compare a b = EqOrdModel.Panic 356 /\
-    desc_cmp cmp_iter N.compare N.compare c d = EqOrdModel.Ok Eq /\ c <> d.
-Proof.
-  exists (DWsh (MOrB (MMulti 1 [0; 1]) (w_spk 2))), (DWsh (MOrB (MMulti 1 [0; 1; 2]) (w_spk 0))),
-         (DTr 0 [(0, MMultiA 1 [0; 1])]), (DTr 0 [(0, MMultiA 1 [0; 1; 2])]).
-  repeat split; try (vm_compute; reflexivity); discriminate.
-Qed.
-
-(* with the repaired miniscript order the descriptor order never panics and its Equal is structural equality *)
+(* the descriptor order never panics and its Equal is structural equality *)
 Section DescCmp.
   Variables kf kx : key -> key -> comparison.
   Hypothesis to_kf : total_order kf.
   Hypothesis to_kx : total_order kx.
 
-  Lemma leaves_cmp_fixed : forall l l', exists c, leaves_cmp cmp_fixed kx l l' = EqOrdModel.Ok c /\ (c = Eq <-> l = l').
+  Lemma leaves_cmp_spec : forall l l', exists c, leaves_cmp cmp_iter kx l l' = EqOrdModel.Ok c /\ (c = Eq <-> l = l').
   Proof.
     induction l as [|[d m] r IH]; destruct l' as [|[d' m'] s]; cbn.
     - exists Eq. split; [reflexivity | split; reflexivity].
     - exists Lt. split; [reflexivity | split; discriminate].
     - exists Gt. split; [reflexivity | split; discriminate].
     - destruct (d ?= d') eqn:E.
-      + apply N.compare_eq_iff in E. subst d'. rewrite (cmp_fixed_spec kx to_kx m m').
+      + apply N.compare_eq_iff in E. subst d'. rewrite (cmp_iter_spec kx to_kx m m').
         destruct (spec_cmp kx m m') eqn:E2.
         * apply (spec_cmp_eq kx to_kx) in E2. subst m'. destruct (IH s) as [c [Hc Hi]]. exists c. split; [exact Hc|].
           rewrite Hi. split; [congruence | intro H; injection H; auto].
@@ -76,10 +57,10 @@ Section DescCmp.
       + exists Gt. split; [reflexivity|]. split; [discriminate|]. intro H. injection H as <- _ _. rewrite N.compare_refl in E. discriminate.
   Qed.
 
-  Theorem desc_cmp_fixed a b : exists c, desc_cmp cmp_fixed kf kx a b = EqOrdModel.Ok c /\ (c = Eq <-> a = b).
+  Theorem desc_cmp_spec a b : exists c, desc_cmp cmp_iter kf kx a b = EqOrdModel.Ok c /\ (c = Eq <-> a = b).
   Proof.
-    assert (M : forall x y, exists c, cmp_fixed kf x y = EqOrdModel.Ok c /\ (c = Eq <-> x = y)).
-    { intros x y. exists (spec_cmp kf x y). split; [apply cmp_fixed_spec; exact to_kf | apply spec_cmp_eq; exact to_kf]. }
+    assert (M : forall x y, exists c, cmp_iter kf x y = EqOrdModel.Ok c /\ (c = Eq <-> x = y)).
+    { intros x y. exists (spec_cmp kf x y). split; [apply cmp_iter_spec; exact to_kf | apply spec_cmp_eq; exact to_kf]. }
     assert (K : forall x y : key, exists c, EqOrdModel.Ok (kf x y) = EqOrdModel.Ok c /\ (c = Eq <-> x = y)).
     { intros x y. exists (kf x y). split; [reflexivity | apply (to_eq _ to_kf)]. }
     destruct a, b; cbn;
@@ -87,7 +68,7 @@ Section DescCmp.
       try (destruct (M m m0) as [c [-> Hi]]; exists c; split; [reflexivity | rewrite Hi; split; [congruence | intro H; injection H; auto]]);
       try (destruct (K k k0) as [c [Hc Hi]]; exists c; split; [exact Hc | rewrite Hi; split; [congruence | intro H; injection H; auto]]).
     destruct (kx ik ik0) eqn:E.
-    - apply (to_eq _ to_kx) in E. subst ik0. destruct (leaves_cmp_fixed leaves leaves0) as [c [-> Hi]]. exists c.
+    - apply (to_eq _ to_kx) in E. subst ik0. destruct (leaves_cmp_spec leaves leaves0) as [c [-> Hi]]. exists c.
       split; [reflexivity | rewrite Hi; split; [congruence | intro H; injection H; auto]].
     - exists Lt. split; [reflexivity|]. split; [discriminate|]. intro H. injection H as <- _. rewrite (to_refl _ to_kx) in E. discriminate.
     - exists Gt. split; [reflexivity|]. split; [discriminate|]. intro H. injection H as <- _. rewrite (to_refl _ to_kx) in E. discriminate.
